@@ -27,15 +27,19 @@ RULE = ("Generated source universes (1-3 local bare git repositories: linear bra
         "lightweight/annotated tags, unrelated repositories and forks that are ahead/behind/diverged; plain files and a "
         "tarball behind file:// URLs / plain paths with/without SHA1/SHA256 digests; import directories) and a root "
         "recipe with 0-3 checkoutSCM entries (git by branch/tag/commit/branch+commit/branch+tag, url, import with/without "
-        "prune; dirs '.', one level, nested in legal order, two-level). History = 2-3 rounds (thorough: up to 6) of [0-3 "
+        "prune; dirs '.', one level, nested in legal order, two-level, siblings whose names share a prefix: a / a-x, "
+        "n / n2). History = 2-3 rounds (thorough: up to 6) of [0-3 "
         "user actions in git source workspaces: modify tracked file, untracked file, commit on current branch, commit "
-        "on new branch, branch switch, detached HEAD + commit - each plants a unique marker][0-2 recipe edits (repo/url, "
+        "on new branch, commit on a side branch and back, commit on the configured branch then a new branch at an "
+        "upstream tip ('review'), branch switch, detached HEAD + commit - each plants a unique marker][0-2 recipe edits (repo/url, "
         "ref, dir, add/remove/reorder SCM, digest refresh, 'bump' = upstream publishes and the recipe follows) or "
         "upstream events (commit, branch, tag, new unrelated/forked repository, replaced url file, import file "
         "add/modify/delete)][one Bob invocation: dev, dev --clean-checkout, dev --no-attic, clean, clean -s (also "
-        "after dropping all SCMs), clean --attic; never forced]; one case in five is a clean scenario (one kind of user "
-        "state, an edit that retires the workspace, dev, clean --attic, drop all SCMs, clean -s), one in five has no "
-        "user action at all (pure convergence). Oracle B after EVERY invocation regardless of its "
+        "after dropping all SCMs), clean --attic; never forced]; one case in four is a clean scenario (one kind of user "
+        "state, an edit that retires the workspace, dev, clean --attic, drop all SCMs, clean -s), one in eight has no "
+        "user action at all (pure convergence), one in eight has two SCMs in prefix-sharing sibling dirs of which the "
+        "shorter named one is retired by an edit, one in eight is a branch+commit/tag spec whose pin moves after a user "
+        "action. Oracle B after EVERY invocation regardless of its "
         "exit status: every file marker exists byte-identical in a file below the project root, every commit marker "
         "is in `git rev-list --all HEAD` of a repository below the project root. Oracle A at the end: after a final "
         "`bob dev root`, if a fresh `bob dev root` of the final spec at another path succeeds, the incremental "
